@@ -10,6 +10,7 @@
    [_partial]): go-header never looks at a header's signature, and P2P transaction data carries none. *)
 From Coq Require Import NArith ZArith List Bool.
 From Verif Require Import Model.Types Model.Admission Proofs.AdmissionProofs.
+From Verif Require Import Model.AdmissionCommit Proofs.AdmissionCommitProofs.
 From Verif Require Model.Retriever.
 From Verif Require Model.GoLite gen.GoLiteFuns Check.GoLiteAdmit Proofs.GoLiteAdmitRefine.
 Import ListNotations.
@@ -33,6 +34,46 @@ Theorem C03_applied_signed_full : forall pk g, g_proposer g = Addr pk -> forall 
   sync_inv pk s -> sync_inv pk (node_final g now tb s l).
 Proof. exact applied_signed_full. Qed.
 Print Assumptions C03_applied_signed_full.
+
+(* ---- transaction data: what ties it to the proposer's signature ------------------------------------- *)
+(* Block data on the P2P data topic carries no signature; it is accepted only because the proposer-signed header
+   commits to it (types.Validate: DACommitment(data.Txs) == header.DataHash).  The bytes DACommitment hashes
+   (Model/AdmissionCommit.v: leafPrefix, then every transaction framed by tag and length) determine the list of
+   transactions: two lists with the same commitment are the same list, transaction by transaction, byte by byte
+   (SHA-256 symbolic: the hash is its preimage) ... *)
+Theorem C03_commitment_binding_full : forall a b : list btx, commit_preimage a = commit_preimage b -> a = b.
+Proof. exact commit_preimage_inj. Qed.
+Print Assumptions C03_commitment_binding_full.
+
+(* ... equality of the commitments of two byte-level lists (the observable the harness compares) decides their equality ... *)
+Theorem C03_commitment_decides_full : forall a b : list btx, same_commitment a b = true <-> a = b.
+Proof. exact same_commitment_iff. Qed.
+Print Assumptions C03_commitment_decides_full.
+
+(* ... so the symbolic commitment of Model/Types.v (the list of transaction ids) is what the code's commitment
+   identifies, for every naming of byte strings by ids that gives different strings different ids *)
+Theorem C03_symbolic_commitment_full : forall (I : tx -> btx) (a b : list tx),
+  (forall x y, In x a -> In y b -> I x = I y -> x = y) ->
+  (commit_preimage (map I a) = commit_preimage (map I b) <-> commitment_eqb a b = true).
+Proof. exact symbolic_commitment_sound. Qed.
+Print Assumptions C03_symbolic_commitment_full.
+
+(* data that passes the header/data check under a header: its transactions ARE the list the header commits to, and
+   any byte-level list with the header's commitment is that data's list *)
+Theorem C03_data_under_header_full : forall (I : tx -> btx) sh d, validate_pair sh d = true ->
+  d_txs d = h_data (sh_hdr sh) /\
+  forall bl : list btx, commit_preimage bl = commit_preimage (map I (h_data (sh_hdr sh))) -> bl = map I (d_txs d).
+Proof. exact data_under_header_full. Qed.
+Print Assumptions C03_data_under_header_full.
+
+(* for ALL traffic (DA and P2P, any origin, any order): every block the full node applies and stores has a header
+   signed by the proposer and exactly the transactions that signed header commits to *)
+Theorem C03_applied_txs_full : forall pk g, g_proposer g = Addr pk -> forall (I : tx -> btx) now tb l s, sync_inv pk s ->
+  forall sh d, In (sh, d) (n_applied (node_final g now tb s l)) ->
+  signed_by pk sh = true /\ d_txs d = h_data (sh_hdr sh) /\
+  forall bl : list btx, commit_preimage bl = commit_preimage (map I (h_data (sh_hdr sh))) -> bl = map I (d_txs d).
+Proof. exact applied_bytes_full. Qed.
+Print Assumptions C03_applied_txs_full.
 
 (* no traffic whatsoever makes a goroutine of the node panic *)
 Theorem C03_no_crash_full : forall g now tb l s,
@@ -178,6 +219,36 @@ Example ex_p2p_data_halts :
   let a := node_final W.gen W.now W.tb W.s0 W.genuine_p2p in
   let b := node_final W.gen W.now W.tb W.s0 W.mixed_p2p in
   (n_height a, n_halted a, n_height b, n_halted b, adversarial W.pk (IGossipD W.FD true)) = (2, false, 1, true, true).
+Proof. vm_compute. reflexivity. Qed.
+
+(* the tie of transaction data to the signed header.  The encoding: tag 18, length, bytes per transaction behind the
+   leaf prefix 0; lengths from 128 on take two groups *)
+Example ex_commit_preimage :
+  commit_preimage [[10; 11; 12]; [13; 14]; []] = [0; 18; 3; 10; 11; 12; 18; 2; 13; 14; 18; 0] /\
+  varint 127 = [127] /\ varint 128 = [128; 1] /\ varint 300 = [172; 2] /\ commit_preimage [] = empty_preimage.
+Proof. vm_compute. repeat split; reflexivity. Qed.
+(* the proposer's transactions of block 2 ([10;11;12] and [13;14]) cut one byte further ([10;11;12;13] and [14]), or
+   preceded by an empty transaction: the same bare concatenation, NOT the same commitment; the header/data check
+   refuses both and takes the proposer's list *)
+Example ex_recut_refused :
+  unframed_preimage (interp WC.p [5; 6]) = unframed_preimage (interp WC.p [7; 8]) /\
+  unframed_preimage (interp WC.p [5; 6]) = unframed_preimage (interp WC.p [9; 5; 6]) /\
+  same_commitment (interp WC.p [5; 6]) (interp WC.p [7; 8]) = false /\
+  same_commitment (interp WC.p [5; 6]) (interp WC.p [9; 5; 6]) = false /\
+  same_commitment (interp WC.p [9]) [] = false /\
+  (validate_pair W.sh2 WC.RD, validate_pair W.sh2 WC.ED, validate_pair W.sh2 W.D2) = (false, false, true).
+Proof. vm_compute. repeat split; reflexivity. Qed.
+(* a commitment over the bare concatenation would not determine the list *)
+Example ex_unframed_not_binding : exists a b : list btx, unframed_preimage a = unframed_preimage b /\ a <> b.
+Proof. exact unframed_not_binding. Qed.
+(* the hypothesis of C03_symbolic_commitment_full is met by the pool of these examples *)
+Example ex_pool_injective : forall x y, In x [5; 6] -> In y [7; 8] -> pool_get WC.p x = pool_get WC.p y -> x = y.
+Proof. exact WC.p_inj_56_78. Qed.
+(* the re-cut data gossiped for block 2 ahead of the genuine data: it is cached, the genuine header then fails the
+   check against it — nothing but block 1 is ever applied (that the node halts is the listed P2P finding) *)
+Example ex_recut_never_applied :
+  let s := node_final W.gen W.now W.tb W.s0 WC.recut_p2p in
+  (n_height s, n_halted s, map (fun b => d_txs (snd b)) (n_applied s)) = (1, true, [[]]).
 Proof. vm_compute. reflexivity. Qed.
 
 (* the light node: an unsigned header that names the proposer and hash-links to the head is stored, and the
